@@ -1662,3 +1662,115 @@ Proof.
     apply scale_nonneg; auto. + rewrite Forall_forall in RN. auto. + apply qsum_nonneg; auto.
   - eapply raw_bins_simps_nonneg; eauto. apply W.
 Qed.
+
+(* ------------------------------------------------------------------ *)
+(* (d) a trapezoid bin lying inside ONE interval of the table is the integral of the interpolant over the bin *)
+(* the interpolant inside one interval of the table *)
+Lemma interp_from_interval A x0 y0 x1 y1 B x :
+  increasing (map fst (A ++ (x0, y0) :: (x1, y1) :: B)) -> x0 <= x -> x <= x1 ->
+  interp_from (map fst (A ++ (x0, y0) :: (x1, y1) :: B)) (map snd (A ++ (x0, y0) :: (x1, y1) :: B)) x
+  = y0 + ((y1 - y0) / (x1 - x0)) * (x - x0).
+Proof.
+  induction A as [|[a ya] A' IH]; intros I H0 H1.
+  - simpl app in *. simpl map in *. destruct I as [I1 I2].
+    change (interp_from (x0 :: x1 :: map fst B) (y0 :: y1 :: map snd B) x)
+      with (if qlt x x1 then y0 + ((y1 - y0) / (x1 - x0)) * (x - x0) else interp_from (x1 :: map fst B) (y1 :: map snd B) x).
+    destruct (qlt x x1) eqn:E; [reflexivity|]. qb. assert (x = x1) by (apply Qcle_antisym; auto). subst x.
+    transitivity y1.
+    + destruct B as [|[x2 y2] B'].
+      * simpl. rewrite qeqb_refl. reflexivity.
+      * simpl map. simpl in I2. destruct I2 as [I2 _].
+        change (interp_from (x1 :: x2 :: map fst B') (y1 :: y2 :: map snd B') x1)
+          with (if qlt x1 x2 then y1 + ((y2 - y1) / (x2 - x1)) * (x1 - x1) else interp_from (x2 :: map fst B') (y2 :: map snd B') x1).
+        apply qlt_iff in I2. rewrite I2. unfold Qcdiv. ring.
+    + field. apply lt_minus_neq0; auto.
+  - assert (I' : increasing (map fst (A' ++ (x0, y0) :: (x1, y1) :: B))).
+    { simpl app in I. simpl map in I. destruct (map fst (A' ++ (x0, y0) :: (x1, y1) :: B)) eqn:E; [simpl; auto|]. apply I. }
+    rewrite <- (IH I' H0 H1).
+    (* the head of the remaining table is <= x0 <= x *)
+    assert (Hn : exists nx ny rest, A' ++ (x0, y0) :: (x1, y1) :: B = (nx, ny) :: rest /\ nx <= x0).
+    { destruct A' as [|[b yb] A'']; [exists x0, y0, ((x1, y1) :: B); split; [reflexivity | apply Qcle_refl]|].
+      exists b, yb, (A'' ++ (x0, y0) :: (x1, y1) :: B). split; [reflexivity|].
+      apply increasing_SS in I'. simpl app in I'. simpl map in I'. inversion I' as [|? ? S1 F1]; subst.
+      rewrite Forall_forall in F1. apply Qclt_le_weak. apply F1. rewrite map_app. apply in_or_app. right. left. reflexivity. }
+    destruct Hn as (nx & ny & rest & En & Hle). simpl app. rewrite En in *. simpl map.
+    change (interp_from (a :: nx :: map fst rest) (ya :: ny :: map snd rest) x)
+      with (if qlt x nx then ya + ((ny - ya) / (nx - a)) * (x - a) else interp_from (nx :: map fst rest) (ny :: map snd rest) x).
+    replace (qlt x nx) with false; [reflexivity|]. symmetry. apply qlt_false. eapply Qcle_trans; eauto.
+Qed.
+
+Lemma interp_interval A x0 y0 x1 y1 B x :
+  increasing (map fst (A ++ (x0, y0) :: (x1, y1) :: B)) -> x0 <= x -> x <= x1 ->
+  interp (map fst (A ++ (x0, y0) :: (x1, y1) :: B)) (map snd (A ++ (x0, y0) :: (x1, y1) :: B)) x
+  = y0 + ((y1 - y0) / (x1 - x0)) * (x - x0).
+Proof.
+  intros I H0 H1. unfold interp.
+  destruct (map fst (A ++ (x0, y0) :: (x1, y1) :: B)) as [|w0 wt] eqn:E.
+  - destruct A; discriminate.
+  - assert (Hw : w0 <= x0).
+    { rewrite <- E in I. destruct A as [|[a ya] A'].
+      - simpl in E. inversion E. apply Qcle_refl.
+      - simpl in E. inversion E; subst. apply increasing_SS in I. simpl app in I. simpl map in I.
+        inversion I as [|? ? S1 F1]; subst. rewrite Forall_forall in F1. apply Qclt_le_weak. apply F1.
+        rewrite map_app. apply in_or_app. right. left. reflexivity. }
+    replace (qlt x w0) with false by (symmetry; apply qlt_false; eapply Qcle_trans; eauto).
+    rewrite <- E. apply interp_from_interval; auto. rewrite E. exact I.
+Qed.
+Lemma piece_is_trapezoid x0 y0 x1 y1 l h : x0 < x1 ->
+  piece x0 y0 x1 y1 l h =
+  (1 / two) * ((y0 + ((y1 - y0) / (x1 - x0)) * (l - x0)) + (y0 + ((y1 - y0) / (x1 - x0)) * (h - x0))) * (h - l).
+Proof. intros H. unfold piece. rewrite two_eq. field. split; [apply lt_minus_neq0; auto | apply opo_neq0]. Qed.
+Lemma pl_interval A x0 y0 x1 y1 B l h :
+  let P := A ++ (x0, y0) :: (x1, y1) :: B in
+  increasing (map fst P) -> x0 <= l -> l <= h -> h <= x1 ->
+  pl_integral P l h = (1 / two) * (interp (map fst P) (map snd P) l + interp (map fst P) (map snd P) h) * (h - l).
+Proof.
+  intros P I H0 H1 H2. unfold P in *.
+  rewrite (interp_interval A x0 y0 x1 y1 B l), (interp_interval A x0 y0 x1 y1 B h); auto;
+    try (eapply Qcle_trans; eauto).
+  assert (S : StronglySorted Qclt (map fst (A ++ (x0, y0) :: (x1, y1) :: B))) by (apply increasing_SS; auto).
+  rewrite map_app in S. simpl map in S.
+  assert (X01 : x0 < x1).
+  { apply SS_app_inv_r in S. inversion S as [|? ? S1 F1]; subst. rewrite Forall_forall in F1. apply F1. left; auto. }
+  rewrite pl_split. rewrite (pl_zero_left (A ++ [(x0, y0)])).
+  2:{ intros q Hq. apply in_app_or in Hq. destruct Hq as [Hq|[<-|[]]]; simpl; auto.
+      eapply Qcle_trans; [|eassumption]. apply Qclt_le_weak.
+      apply (SS_app_lt _ _ _ S (fst q) x0); [apply (in_map fst); auto | left; auto]. }
+  change (pl_integral ((x0, y0) :: (x1, y1) :: B) l h)
+    with ((if qlt (qmax l x0) (qmin h x1) then piece x0 y0 x1 y1 (qmax l x0) (qmin h x1) else 0)
+          + pl_integral ((x1, y1) :: B) l h).
+  rewrite (pl_zero_right ((x1, y1) :: B)).
+  2:{ intros q [<-|Hq]; simpl; auto. eapply Qcle_trans; [eassumption|]. apply Qclt_le_weak.
+      apply SS_app_inv_r in S. inversion S as [|? ? S1 F1]; subst. inversion S1 as [|? ? S2 F2]; subst.
+      rewrite Forall_forall in F2. apply F2. apply (in_map fst); auto. }
+  rewrite (qmax_l l x0) by auto. rewrite (qmin_l h x1) by auto.
+  destruct (qlt l h) eqn:E; qb.
+  - rewrite piece_is_trapezoid by auto. ring.
+  - assert (l = h) by (apply Qcle_antisym; auto). subst. unfold Qcdiv. ring.
+Qed.
+Lemma chain_trapz_nth x (f : Qc -> Qc) k : (Datatypes.S k < length x)%nat ->
+  nth k (chain_trapz (combine x (map f x))) 0
+  = (1 / two) * (f (nth k x 0) + f (nth (Datatypes.S k) x 0)) * (nth (Datatypes.S k) x 0 - nth k x 0).
+Proof.
+  revert k. induction x as [|x0 [|x1 t] IH]; intros k H; simpl in H; try lia.
+  change (chain_trapz (combine (x0 :: x1 :: t) (map f (x0 :: x1 :: t))))
+    with ((1 / two) * (f x0 + f x1) * (x1 - x0) :: chain_trapz (combine (x1 :: t) (map f (x1 :: t)))).
+  destruct k as [|k]; [reflexivity|].
+  change (nth (Datatypes.S k) ((1 / two) * (f x0 + f x1) * (x1 - x0) :: chain_trapz (combine (x1 :: t) (map f (x1 :: t)))) 0)
+    with (nth k (chain_trapz (combine (x1 :: t) (map f (x1 :: t)))) 0).
+  rewrite IH by (simpl; lia). reflexivity.
+Qed.
+Lemma raw_bins_trapz_interval s c e b k A x0 y0 x1 y1 B :
+  raw_bins s c Trapz e = Ok b -> wf s -> samples s = A ++ (x0, y0) :: (x1, y1) :: B -> (k < length c)%nat ->
+  let x := bin_edges_trapz e c in
+  x0 <= nth k x 0 -> nth k x 0 <= nth (Datatypes.S k) x 0 -> nth (Datatypes.S k) x 0 <= x1 ->
+  nth k b 0 = pl_integral (samples s) (nth k x 0) (nth (Datatypes.S k) x 0).
+Proof.
+  intros R W E Hk x H0 H1 H2. unfold raw_bins in R.
+  destruct (length c <? 2)%nat eqn:E2; [discriminate|]. apply Nat.ltb_ge in E2.
+  unfold sample in R. destruct (length (wave s) =? 0)%nat; [discriminate|]. destruct (negb _); [discriminate|].
+  simpl in R. apply Ok_inj in R. subst b. fold x.
+  rewrite chain_trapz_nth by (unfold x; rewrite bin_edges_trapz_length; lia).
+  rewrite <- (wf_wave _ W), <- (wf_value _ W). rewrite E. symmetry. apply pl_interval; auto.
+  rewrite <- E, (wf_wave _ W). apply W.
+Qed.
